@@ -7,6 +7,7 @@ import (
 	"path/filepath"
 	"strings"
 	"sync"
+	"sync/atomic"
 	"time"
 
 	"verif/harness/origin"
@@ -444,4 +445,58 @@ func midSwapFault(c *vk.Ctx, at string) int {
 		}
 	}
 	return 1
+}
+
+// rejectedThenAccepted: within ONE load the origin first answers with a list that is rejected only after its entries were read (an
+// unimplemented critical extension at the end, or one damaged entry in the middle) and, to whoever asks again, with a valid list of
+// other entries. Nothing of the rejected list may revoke anybody - whether the loader asks again by itself or the next handshake does.
+func rejectedThenAccepted(c *vk.Ctx) int {
+	n := 0
+	for _, disk := range []bool{false, true} {
+		for _, how := range []string{"critext", "damaged"} {
+			if c.Violations() > 6 {
+				break
+			}
+			rw, err := newRepoWorld(disk, []string{"verify", "none"}[n%2], false, c.Seed*83+int64(n))
+			if err != nil {
+				c.Infra("repo world: %v", err)
+			}
+			sh := Shape{Size: "s300", Pos: "first", Width: "w1", Ext: "none", Enc: "der"}
+			px, py := rw.probes["x"].Cert.SerialNumber, rw.probes["y"].Cert.SerialNumber
+			rejected := BuildCRL(CRLSpec{Signer: rw.ca, Listed: []*big.Int{px}, Avoid: []*big.Int{py, rw.probes["z"].Cert.SerialNumber}, CritExt: true, Number: 50}, sh)
+			if how == "damaged" {
+				good := BuildCRL(CRLSpec{Signer: rw.ca, Listed: []*big.Int{px}, Avoid: []*big.Int{py, rw.probes["z"].Cert.SerialNumber}, Number: 50}, sh)
+				rejected = append([]byte(nil), good...)
+				rejected[len(rejected)*2/3] ^= 0xff // somewhere in the middle of the entry list, after the listed entry (Pos first)
+				rejected[len(rejected)*2/3+1] ^= 0xff
+			}
+			accepted := BuildCRL(CRLSpec{Signer: rw.ca, Listed: []*big.Int{py}, Avoid: []*big.Int{px, rw.probes["z"].Cert.SerialNumber}, Number: 51}, sh)
+			var reqs atomic.Int64
+			rw.org.Set(pathRepo, origin.Behaviour{Kind: "func", Func: func([]byte) (int, []byte) {
+				if reqs.Add(1) == 1 {
+					return 200, rejected
+				}
+				return 200, accepted
+			}})
+			r1 := rw.w.HandshakeTimeout(rw.chains["driver"], 120*time.Second)
+			res1, _ := rw.probe(2 * time.Second)
+			r2 := rw.w.HandshakeTimeout(rw.chains["driver"], 120*time.Second)
+			res2, _ := rw.probe(2 * time.Second)
+			n++
+			c.Eval(fmt.Sprintf("rejected-then-accepted|%s|%s", backendName(disk), how))
+			rep := map[string]any{"backend": backendName(disk), "rejected_because": how, "signature_validation_mode": rw.w.Cfg.Sig, "first_handshake": r1, "lookups_after_first": res1, "second_handshake": r2, "lookups_after_second": res2, "requests": reqs.Load()}
+			for _, res := range []map[string]probeResult{res1, res2} {
+				if res["x"].Verdict == "revoked" {
+					c.Violation(fmt.Sprintf("%s:entries-of-a-rejected-list-revoke:%s", backendName(disk), how),
+						fmt.Sprintf("x is named only by a list that was rejected (%s, after its entries had been read); the origin then served a valid list naming y; x is reported revoked", how), rep)
+					break
+				}
+			}
+			if got, ok := listedOf(res2); !ok || got != "y" {
+				c.Drift("rejected-then-accepted:second-handshake-did-not-load:" + got)
+			}
+			rw.close()
+		}
+	}
+	return n
 }
